@@ -412,8 +412,12 @@ class Parser:
         if dump:
             if file_path:
                 # if we run parse from one file - save same way to one file
+                # the file name without its (last) extension: "users.v1.sql" and
+                # "users.v2.sql" are two dump files
                 dump_data_to_file(
-                    os.path.basename(file_path).split(".")[0], dump_path, self.tables
+                    os.path.splitext(os.path.basename(file_path))[0],
+                    dump_path,
+                    self.tables,
                 )
             else:
                 for table in self.tables:
